@@ -904,7 +904,7 @@ def run(ctx):
     rng = ctx.rng
     b = Batch(ctx)
     t0 = time.time()
-    budget = 55.0 if ctx.tier == 'quick' else 480.0
+    budget = 36.0 if ctx.tier == 'quick' else 480.0      # the random streams stop here (counted as skipped-for-time)
     for case in corpus():
         check_bounds(ctx, case)
         b.add(case, 'corpus')
@@ -923,12 +923,12 @@ def run(ctx):
     for k in range(n_real):
         b.add(gen_growth_case(rng, 0, 760 + 40 * k), 'growth-64KiB')
         b.flush()
-    for k in range(500 if ctx.tier == 'quick' else 6000):
+    for k in range(400 if ctx.tier == 'quick' else 6000):
         b.add(gen_points_case(rng), 'collection-points')
         if len(b.items) >= 300:
             b.flush()
     b.flush()
-    n_short, n_long = (2500, 80) if ctx.tier == 'quick' else (30000, 1500)
+    n_short, n_long = (1800, 40) if ctx.tier == 'quick' else (30000, 1500)
     if ctx.broken:
         n_short, n_long = n_short * 2, n_long * 2
     for i in range(n_short):
